@@ -411,6 +411,26 @@ func c09Case(c *core.Ctx, rng *rand.Rand, dir string, idx int) {
 			s.TouchHeld(fds[rng.Intn(len(fds))], rng.Intn(2) == 0)
 			c.Count("changes_through_a_descriptor_of_an_unlinked_file", 1)
 		}
+		if ending == "delete" && rng.Intn(2) == 0 {
+			// an Add of the vanished name fails; the file (and its watch) lives on through the descriptor
+			err := s.W.Add(arg)
+			s.Logf("Add(%q)=%v (the name is gone)", arg, err)
+			c.Count("failed_adds_of_an_unlinked_but_open_file", 1)
+			if err == nil && via != "symlink" {
+				fail("add-of-missing-path-succeeded", fmt.Sprintf("Add(%q) of a name that no longer exists returned nil", arg))
+				return
+			}
+			still := false
+			for _, p := range s.W.WatchList() {
+				if p == carg {
+					still = true
+				}
+			}
+			if !still {
+				fail("watch-ended-before-last-close", fmt.Sprintf("a failed Add(%q) removed the path from WatchList although %d descriptors still keep the file alive", arg, len(fds)))
+				return
+			}
+		}
 		if parent == "late" {
 			s.AddStrict(&rep, "p")
 		}
